@@ -44,7 +44,8 @@ def Writer.init (K : HConsts) (R : Registry) (h : Header) (mode : Option Mode) (
 /-- the sort key of a record as the sorter computes it -/
 def Writer.keyOf (K : HConsts) (w : Writer) (r : Record) : Except PyErr Key :=
   let (o, cs) := w.header.sortOrder K
-  -- `_CoordinateKey.__init__`: chromosome (KeyError), contig lookup (ValueError), positions (KeyError)
+  -- `_CoordinateKey.__init__`: chromosome (KeyError), contig lookup (ValueError), positions
+  -- (KeyError: column missing, or a text that is not a number); the error propagates from `add`
   let loc := r.toLoc
   if loc.hasCoords then mkKey o cs loc
   else match (tdictGet r.dict "Chromosome".toList).map (·.col.value) with
